@@ -36,7 +36,8 @@ REQUIRED_THEOREMS = [
     "Acn.C10.updateSchedules_equivariant", "Acn.C10.popCurrent_perm", "Acn.C10.plugins_commute",
     "Acn.C10.unplugs_commute", "Acn.C10.eventsStage_perm", "Acn.C10.run_perm_sessions_partial",
     "Acn.C10.run_equivariant_stations_partial", "Acn.C10.body_shift", "Acn.C10.run_shift_partial",
-    "Acn.C10.updateSchedules_shift",
+    "Acn.C10.updateSchedules_shift", "Acn.C10.run_equivariant_stations", "Acn.C10.scripted_schedEquivariant",
+    "Acn.C10.sort_perm_of_distinct_keys",
 ]
 BUDGET = {"quick": 200, "thorough": 1600, "search": 1200}
 TRUSTED = ["CPython heapq / sorted (stable) / dict insertion order; numpy `@`, `sum`, `abs` (a changed summation "
